@@ -36,3 +36,7 @@ func setSimClock(t int64, onRead func(site string)) {
 		return now
 	}
 }
+
+// setStmtHook installs f before every statement of the instrumented rule bodies and helpers
+// (nil removes it).
+func setStmtHook(f func(site string)) { verifyield.SHook = f }
